@@ -71,6 +71,11 @@ def canon(op, ans):
 def correspond(ctx):
     c = vlib.correspond(ctx, 'c14', 'C14', ['mode=corr'], canon=canon, timeout=1500)
     c['name'] = 'c14'
+    # no generator or corpus line is meant to be unparseable: a `bad-op` answered by BOTH sides
+    # (e.g. an oracle field that stopped decoding) would otherwise be silent agreement
+    if c.get('bad_op', 0) > 0:
+        c['ok'] = False
+        c.setdefault('errors', []).append('%d op lines answered bad-op by the model' % c['bad_op'])
     return [c]
 
 
@@ -84,7 +89,7 @@ def search(ctx, hints):
         res['error'] = 'searcher build failed: ' + log[-1500:]
         return res
     out = os.path.join(ctx.work, 'c14.search')
-    keys = 4
+    keys = 6
     if hints.get('broken'):
         keys = 16
     if ctx.thorough():
@@ -131,14 +136,17 @@ def replay(ctx, payload):
         print(log)
         return 1
     rc, so, se = vlib.run([binp, 'mode=exec', 'line=' + line], cwd=ctx.scratch('rp'))
-    full, impl = (so.strip().split('\n') + ['', ''])[:2]
+    out = [l for l in so.split('\n') if l.strip()]
+    fulls, impls = out[0::2], out[1::2]
     ops = os.path.join(ctx.work, 'replay.ops')
-    open(ops, 'w').write(full + '\n')
+    open(ops, 'w').write('\n'.join(fulls) + '\n')
     mod = os.path.join(ctx.work, 'replay.mod')
     vlib.run_driver('C14', ops, mod)
-    print('op:    ' + full)
-    print('impl:  ' + impl)
-    print('model: ' + open(mod).read().strip())
+    models = open(mod).read().strip().split('\n')
+    for full, impl, model in zip(fulls, impls, models + [''] * len(fulls)):
+        print('op:    ' + full)
+        print('impl:  ' + impl)
+        print('model: ' + model)
     for k in ('class', 'expected', 'observed'):
         if k in rp:
             print('%s: %s' % (k, rp[k]))
